@@ -5,6 +5,7 @@
       (<am>/<ap> = 1: the tree writes manifests / part records atomically — detected by the driver from the real trace)
     crash <k> <store> <hashes> <chunk> <op>    → the store after the first k effects
     restart <store>                            → the store after the start-up sequence
+    restarted <k> <job>                        → the store after crash k and the start-up sequence
     rerun <k> <store> <hashes> <chunk> <op>    → outcome of op on restart(crash k) and the readable manifests after it
 
   <store>  := <n> (<path> <content>)*
@@ -24,6 +25,7 @@ def parsePath (s : String) : Option Path :=
   if s.startsWith "B:" then some (.blob body)
   else if s.startsWith "P:" then some (.pfile body)
   else if s.startsWith "M:" then some (.man body)
+  else if s.startsWith "X:" then some (.other body)
   else if s.startsWith "T:" then body.toNat?.map .temp
   else if s.startsWith "R:" then
     match body.splitOn ":" with
@@ -121,6 +123,7 @@ def showPathWith (temp : Nat → String) : Path → String
   | .pfile d => "P:" ++ d
   | .part d n => "R:" ++ d ++ ":" ++ toString n
   | .man n => "M:" ++ n
+  | .other x => "X:" ++ x
 
 def showLayer (l : Layer) : String := l.digest ++ "/" ++ toString l.size
 
@@ -197,6 +200,10 @@ def handle (toks : List String) : Option String :=
   | "restart" :: rest => do
     let st ← runTP pStore rest
     pure (showStore (restart st))
+  | "restarted" :: k :: rest => do
+    let k ← k.toNat?
+    let j ← runTP pJob rest
+    pure (showStore (restartWith j.env (run ((j.op.exec j.env j.st).effs.take k) j.st)))
   | "rerun" :: k :: rest => do
     let k ← k.toNat?
     let j ← runTP pJob rest
